@@ -1,6 +1,6 @@
 #!/bin/bash
 # Runs a check against /repo HEAD + patch.  usage: try_patch.sh <patch.diff> <Cxx> [tier]
-patch="$1"; check="$2"; tier="${3:-quick}"
+patch="$(realpath "$1")"; check="$2"; tier="${3:-quick}"
 wt="/tmp/wt-try-$$"
 git -C /repo worktree add --detach "$wt" HEAD >/dev/null 2>&1 || exit 2
 if ! git -C "$wt" apply "$patch"; then echo "PATCH-DOES-NOT-APPLY"; git -C /repo worktree remove --force "$wt"; exit 2; fi
